@@ -35,6 +35,7 @@ class Contract:
         self.assumes = kw.pop('assumes', [])            # textual assumptions used by this contract
         self.inv = kw.pop('inv', [])
         self.xinv = kw.pop('xinv', True)
+        self.skeleton = kw.pop('skeleton', None)          # pinned call skeleton for ordinal-keyed site contracts
         self.frame_props = kw.pop('frame_props', None)
         self.variant = kw.pop('variant', None)
         self.roles = kw.pop('roles', {})                 # sidecar local name -> role ('emptylist#0', 'emptydict#0')
